@@ -4,7 +4,7 @@ must be equal to each other (pairwise, independent of the model) and to the extr
 from harness.props import _meta
 
 PROP, NUM = 'C11', 11
-SOURCES = _meta.available(['C01', 'C02', 'C03', 'C04', 'C05', 'C06', 'C07', 'C08', 'C09', 'C14', 'C16', 'C17', 'C19'])
+SOURCES = _meta.available(['C01', 'C02', 'C03', 'C04', 'C05', 'C06', 'C07', 'C08', 'C09', 'C14', 'C16', 'C17', 'C19', 'C21'])
 PROPS_FILES = ['Props/C11.v'] + _meta.props_files(SOURCES)
 MODES = ['jit', 'nojit']
 MODES_THOROUGH = ['jit', 'nojit', 'bounds']
